@@ -145,6 +145,15 @@ class ClassInfo:
         walk(self)
         return out
 
+    @property
+    def namedtuple_fields(self) -> Optional[List[str]]:
+        """Field names, in order, of a typing.NamedTuple class (None for any other class)."""
+        if not any((isinstance(b, ast.Name) and b.id == 'NamedTuple') or
+                   (isinstance(b, ast.Attribute) and b.attr == 'NamedTuple') for b in self.base_exprs):
+            return None
+        return [st.target.id for st in self.node.body
+                if isinstance(st, ast.AnnAssign) and isinstance(st.target, ast.Name)]
+
     def lookup(self, name: str) -> Optional[FuncInfo]:
         for c in self.mro():
             if name in c.methods:
